@@ -15,15 +15,28 @@
 (* because of the lock.  UseLock = FALSE removes the lock (used to show that the refinement      *)
 (* check is not vacuous).  (The middleware that stamps the current version on every reply --      *)
 (* successful mutations overwrite it -- is not modelled: the property is silent about it.)        *)
+(*                                                                                              *)
+(* Object names are not independent in the store: the key of object n is /config/objects/<n>,    *)
+(* so a store operation on the *prefix* of that key also reaches every object whose name extends *)
+(* n ("sv" -> "svc", "svc-canary").  The name universe of the configurations, of the generator    *)
+(* and of the harness therefore contains names that are proper string prefixes of one another     *)
+(* (ProperPrefixes); the contract knows nothing of this: a request touches its own name only.     *)
+(* DelPrefix = TRUE replaces the exact-key delete by a prefix delete (used to show that the       *)
+(* refinement check sees collateral deletions).                                                   *)
 EXTENDS Integers, FiniteSets, TLC
 
 CONSTANTS Clients,    \* request goroutines, numbered 1..N (0 = nobody)
           Names, Kinds,
           MaxOps,     \* requests per client (bounds the model)
-          UseLock     \* BOOLEAN
+          UseLock,    \* BOOLEAN
+          DelPrefix   \* BOOLEAN: FALSE = the code (_deleteObject deletes the exact key); TRUE = delete by key prefix
 
 None == [k |-> "none", mk |-> 0]
 NoObjs == [n \in Names |-> None]
+(* <<x, y>>: name x is a proper string prefix of name y (TLC strings are atomic: the relation is listed) *)
+ProperPrefixes == {<<"sv", "svc">>, <<"sv", "svc-canary">>, <<"svc", "svc-canary">>}
+(* the names whose keys a delete of n's key reaches *)
+Reached(n) == IF DelPrefix THEN {x \in Names : x = n \/ <<n, x>> \in ProperPrefixes} ELSE {n}
 NoOp  == [t |-> "none", n |-> "-", k |-> "none", mk |-> 0]
 NoRep == [st |-> "none", ver |-> 0, k |-> "none", mk |-> 0, all |-> NoObjs]
 Rep(st, v, o, all) == [st |-> st, ver |-> v, k |-> o.k, mk |-> o.mk, all |-> all]
@@ -91,7 +104,7 @@ PutObj(c) ==
 
 DelObj(c) ==
     /\ pc[c] = "del"
-    /\ objs' = [objs EXCEPT ![op[c].n] = None]
+    /\ objs' = [x \in Names |-> IF x \in Reached(op[c].n) THEN None ELSE objs[x]]
     /\ linver' = [linver EXCEPT ![c] = AbsVer + 1]
     /\ pc' = [pc EXCEPT ![c] = "vread"]
     /\ UNCHANGED <<ver, holder, op, v, rep, nops>>
